@@ -89,8 +89,10 @@ class Prior(HoloPyObject):
     def __sub__(self, value):
         if isinstance(value, np.ndarray):
             return np.array([self - val for val in value])
-        if isinstance(value, np.unsignedinteger):
-            value = int(value)  # negating a numpy unsigned wraps around
+        if isinstance(value, np.integer):
+            # negating a numpy unsigned wraps around, and so does negating
+            # the most negative signed one
+            value = int(value)
         return self + (-value)
 
     def __rsub__(self, value):
